@@ -85,8 +85,15 @@ def run(repo: Repo, rep: Report, tier: str) -> None:
         return has_add and bool(tries)
 
     cm_names = {hn for hn, hf in ds.methods.items() if _cm_pairs_add_remove(hf)}
+    # ... or a small context-manager class of the module: __enter__ adds to the set it was given, __exit__ removes again
+    for cname, c_ in utils.classes.items():
+        en, ex_ = c_.methods.get("__enter__"), c_.methods.get("__exit__")
+        if en is not None and ex_ is not None and any(isinstance(c, ast.Call) and isinstance(c.func, ast.Attribute) and c.func.attr == "add" for c in ast.walk(en.node)) \
+                and any(isinstance(c, ast.Call) and isinstance(c.func, ast.Attribute) and c.func.attr in ("remove", "discard") for c in ast.walk(ex_.node)):
+            cm_names.add(cname)
     cm_withs = [w for w in own_nodes(swt.node) if isinstance(w, ast.With) and any(
-        isinstance(it.context_expr, ast.Call) and isinstance(it.context_expr.func, ast.Attribute) and it.context_expr.func.attr in cm_names
+        isinstance(it.context_expr, ast.Call) and ((isinstance(it.context_expr.func, ast.Attribute) and it.context_expr.func.attr in cm_names)
+                                                   or (isinstance(it.context_expr.func, ast.Name) and it.context_expr.func.id in cm_names))
         and any(is_vis(a) for a in it.context_expr.args) for it in w.items)]
     in_cm_with = {id(x) for w in cm_withs for st in w.body for x in ast.walk(st)}
 
